@@ -155,6 +155,13 @@ Proof.
     destruct Hok as [Hokc Hokcs]. apply Hc'; [exact Hokcs|]. apply Hc1; assumption.
 Qed.
 
+Lemma run_app_egg sg : forall cs1 s cs2,
+  run sg s (cs1 ++ cs2) = bind (run sg s cs1) (fun s1 => run sg s1 cs2).
+Proof.
+  induction cs1 as [|c cs1 IH]; intros s cs2; cbn [run app bind]; [reflexivity|].
+  destruct (exec sg s c) as [s1| |]; cbn [bind]; auto.
+Qed.
+
 Lemma run_init_WFs sg n cs s : all_unionid sg ->
   run sg (init n) cs = Ok s -> WFs n (unions_of cs) s.
 Proof.
